@@ -22,11 +22,11 @@ ASSUMPTIONS = [
     "the returned step is matched to a logged evaluation point within 8 ulp of x0 + alpha*d",
     "max feasible step recomputed independently; alpha may exceed it by at most 4 eps relative",
 ]
-FAMS = ("qp", "oscillating", "sinus", "exp_wall", "qp_quartic", "quantized", "offset", "offset", "partial_nan", "partial_inf")
+FAMS = ("qp", "oscillating", "sinus", "exp_wall", "qp_quartic", "quantized", "offset", "offset", "partial_nan", "partial_inf", "nan_band", "nan_band")
 
 
 def floors(tier):
-    return {"calls": 2500, "multi_trial_calls": 500, "returned_none": 40, "points_checked": 6000, "step_at_max": 100, "calls_with_a_nan_trial_value": 80, "calls_with_an_optimisation_nested_in_the_objective": 150, "calls_with_single_precision_point": 150, "calls_with_a_subnormal_direction_component_limiting_the_step": 150, "__nontrivial__": 500}
+    return {"calls": 2500, "multi_trial_calls": 500, "returned_none": 40, "points_checked": 6000, "step_at_max": 100, "calls_with_a_nan_trial_value": 80, "calls_with_an_optimisation_nested_in_the_objective": 150, "calls_with_single_precision_point": 150, "calls_on_a_wrapper_whose_last_point_is_not_the_start": 300, "calls_with_a_subnormal_direction_component_limiting_the_step": 150, "__nontrivial__": 500}
 
 
 def make_objective(rng, fam, n):
@@ -134,8 +134,51 @@ def cases(tier, seed):
         yield {"seed": subseed("C11", seed, i) % (2**31), "count": 12}
 
 
+def nan_band_call(rng):
+    """A ridge function phi(u.(x - x0)) along the search direction: a short dip right after the start, then a rise above the start value
+    that is still descending one full step away, and in between a band where the objective is undefined (NaN, or +inf): a finite trial
+    higher than the start comes first, a later trial falls into the band."""
+    n = int(rng.integers(1, 4))
+    x0 = rng.uniform(-1, 1, n)
+    u = rng.standard_normal(n)
+    u /= float(np.linalg.norm(u))
+    L = float(np.exp(rng.uniform(-1, 1.5)))  # length of the direction handed over
+    a, b = sorted(rng.uniform(0.05, 0.95, 2))
+    if b - a < 0.1:
+        b = min(0.97, a + 0.3)
+    cdip, k, m = float(rng.uniform(1.5, 4.0)), float(rng.uniform(40, 200)), float(rng.uniform(0.2, 1.0))
+    top, slope = float(rng.uniform(0.3, 2.0)), float(rng.uniform(0.5, 3.0))
+    bad = float("nan") if rng.random() < 0.6 else float("inf")
+
+    def tt(x):
+        return float(u @ (x - x0)) / L
+
+    def f(x):
+        t = tt(x)
+        if a <= t <= b:
+            return bad
+        if t < a:
+            return -cdip * t * np.exp(-k * t) + m * t
+        return top - slope * (t - 1.0)
+
+    def g(x):
+        t = tt(x)
+        if a <= t <= b:
+            return np.full(n, np.nan)
+        if t < a:
+            return (-cdip * (1.0 - k * t) * np.exp(-k * t) + m) / L * u
+        return -slope / L * u
+
+    lb = np.where(rng.random(n) < 0.5, x0 - rng.uniform(1, 5, n), -np.inf)
+    ub = np.where(rng.random(n) < 0.5, x0 + rng.uniform(1, 5, n) + 4 * L, np.inf)
+    lb = np.minimum(lb, x0 - 4 * L)
+    return "nan_band", n, f, g, lb, ub, x0, L * u
+
+
 def one_call(rng):
     fam = gen.pick(rng, FAMS)
+    if fam == "nan_band":
+        return nan_band_call(rng)
     n = int(rng.integers(1, 6))
     f, g = make_objective(rng, "qp" if fam.startswith("partial") else fam, n)
     lb, ub = gen.rand_box(rng, n, gen.pick(rng, ["mixed", "boxed", "narrow", "lower", "upper", "none", "mixed"]))
@@ -254,6 +297,12 @@ def run(spec):
             xtol = float(gen.pick(rng, [0.1, 0.1, 1e-3, 1e-8]))
             max_user = float(gen.pick(rng, [1e8, 1e8, 10.0, 1.0]))
             is_boxed = bool(np.all(np.isfinite(lb)) and np.all(np.isfinite(ub)))
+            if j % 4 == 1 and mode == "callable":
+                # as after a failed search or on a wrapper that has served another search: the last point the wrapper evaluated is
+                # not the start of this search (f0 and g0 are handed over by the caller, as the solver does)
+                other = np.clip(x0 + float(rng.uniform(0.1, 0.9)) * d, lb, ub)
+                sf.fun_and_grad(other)
+                out.count("calls_on_a_wrapper_whose_last_point_is_not_the_start")
             del log[:]
             where = f"{fam} n={n} mode={mode} iter={above} cap={cap} tol=({ftol},{gtol},{xtol})"
             ipr, lgr = -1, None
